@@ -111,6 +111,10 @@ type quorumAckTracker struct {
 	tracker            map[int64]*util.BitSet
 	cursorIdxGenerator int
 	closed             bool
+
+	// Acks received for entries that are already synced on the leader (and hence
+	// pushed to the followers) but for which the head offset was not advanced yet
+	earlyAcks map[int64]*util.BitSet
 }
 
 type CursorAcker interface {
@@ -134,6 +138,7 @@ func NewQuorumAckTracker(replicationFactor uint32, headOffset int64, commitOffse
 		requiredAcks:      replicationFactor / 2,
 		replicationFactor: replicationFactor,
 		tracker:           make(map[int64]*util.BitSet),
+		earlyAcks:         make(map[int64]*util.BitSet),
 		waitingRequests:   make([]waitingRequest, 0),
 	}
 
@@ -169,6 +174,15 @@ func (q *quorumAckTracker) AdvanceHeadOffset(headOffset int64) {
 		q.notifyCommitOffsetAdvanced(headOffset)
 	} else {
 		q.tracker[headOffset] = &util.BitSet{}
+		if early, ok := q.earlyAcks[headOffset]; ok {
+			// Some followers have acked this entry before we got here
+			delete(q.earlyAcks, headOffset)
+			q.tracker[headOffset] = early
+			if uint32(early.Count()) >= q.requiredAcks {
+				delete(q.tracker, headOffset)
+				q.notifyCommitOffsetAdvanced(headOffset)
+			}
+		}
 	}
 }
 
@@ -294,6 +308,17 @@ func (c *cursorAcker) ack(offset int64) {
 	q := c.quorumTracker
 
 	e, found := q.tracker[offset]
+	if !found && offset > q.headOffset.Load() {
+		// The ack arrived before the head offset was advanced to this entry.
+		// Keep it until the entry starts being tracked.
+		early, ok := q.earlyAcks[offset]
+		if !ok {
+			early = &util.BitSet{}
+			q.earlyAcks[offset] = early
+		}
+		early.Set(c.cursorIdx)
+		return
+	}
 	if !found {
 		// The entry has already previously reached the quorum.
 		// There's nothing more left to do here.
